@@ -1,15 +1,45 @@
-(* `driver nucleo FILE TABLE`: same history format and observation rendering as `hn nucleo` *)
+(* `driver nucleo FILE TABLE`: same history format and observation rendering as `hn nucleo` (see the header of
+   harness/hn/src/nucleo_cmd.rs).  Events without a counterpart in the extracted model are handled here:
+   `tick Z as` (the UI thread also parks at tick.after_spawn: the model step from tick.before_spawn is taken, its
+   observation is held back until the next `ut`), `utb` (the UI thread is stepped into a blocking lock acquisition:
+   `B` while the model's ETick is not enabled; the `run` step that frees the lock takes the tick step with it) and
+   `utw` (where the unblocked UI thread arrived); `obs` also prints g = Snapshot::get_item(k) for k < 8, read from
+   the snapshot's stream (sn_sid) *)
 open Nv
 open Util
 let n = n_of_int
 let i = int_of_n
 let ntexts = 24
+let get_items = 8   (* obs reports Snapshot::get_item(k) for k < 8 *)
 (* an injector thread: push (n = 1) or extend (n items g, g+step, ...; `chunk` publications per step) *)
 type thr = { tid : int; sid : int; g : int; n : int; step : int; chunk : int; is_ext : bool;
              stage : int ref;   (* 0 not started, 1 reserved, 2 returned *)
              idx : int ref;     (* first reserved index *)
              pub : int ref }    (* items published so far *)
 let unfinished th = !(th.stage) < 2
+(* the pattern pool of the harness: (column 0 text, column 1 text); ids 0..6 = the earlier one-column pool *)
+let patterns = [| ("", ""); ("a", ""); ("ab", ""); ("abc", ""); ("b", ""); ("x", ""); ("ab c", "");
+                  ("", "p"); ("a", "p"); ("ab", "q"); ("a", "pq"); ("b", "p"); ("ab", "p"); ("a", "q");
+                  (* only NEGATED atoms: every match has score 0, the score of the worker's placeholders *)
+                  ("!a", ""); ("!b", ""); ("!ab", ""); ("", "!p") |]
+let npatterns = Array.length patterns
+let is_prefix a b = String.length a <= String.length b && String.sub b 0 (String.length a) = a
+(* truthful append flag of `edit nw 1` after pool entry `old`: EVERY column whose text changes is extended (the old
+   text is a prefix of the new one); the harness reparses exactly the changed columns, so the combined status (max
+   over the columns) is Update iff this holds - the flag of the model's single EEdit.  Re-typing the same entry
+   reparses column 0 with the same text: only the empty entry counts as an extension of itself (as before). *)
+let extends_ old nw =
+  if old = nw then old = 0 else
+  let (o0, o1) = patterns.(old) and (n0, n1) = patterns.(nw) in
+  (o0 = n0 || is_prefix o0 n0) && (o1 = n1 || is_prefix o1 n1)
+(* MultiPattern::reparse answers Rescore whatever the append flag when the LAST atom of the column's old text is
+   negative (appending to it widens the matches): the `lastneg` argument of the model's EEdit - true iff some
+   reparsed column's old text ends in a negated atom (the reparsed columns: those whose text changes, column 0 if none) *)
+let last_word t = match List.rev (List.filter (fun w -> w <> "") (String.split_on_char ' ' t)) with w :: _ -> w | [] -> ""
+let lastneg_ old nw =
+  let (o0, o1) = patterns.(old) and (n0, n1) = patterns.(nw) in
+  let neg t = let w = last_word t in String.length w > 0 && w.[0] = '!' in
+  if o0 = n0 && o1 = n1 then neg o0 else (o0 <> n0 && neg o0) || (o1 <> n1 && neg o1)
 let run_file file tablefile =
   let table = Hashtbl.create 100 and lens = Hashtbl.create 20 in
   Match_cmd.iter_lines tablefile (fun l ->
@@ -27,10 +57,26 @@ let run_file file tablefile =
       let s = ref Nucleo.init_nstate in
       let ev e = s := Nucleo.do_event sc ln !s e in
       let inj_notifies = ref 0 in
+      let cur_pid = ref 0 in
       let threads : (int, thr) Hashtbl.t = Hashtbl.create 10 in
       let obs = ref [] in
       let push o = obs := o :: !obs in
-      let idle () = (match !s.Nucleo.tpc with Nucleo.TIdle -> true | _ -> false) in
+      (* `tick Z as`: the UI thread also parks at tick.after_spawn, a site without a state change in the model: the
+         step from tick.before_spawn is taken in the model, its observation is held back until the next `ut` *)
+      let park_as = ref false and pending : string option ref = ref None in
+      let idle () = !pending = None && (match !s.Nucleo.tpc with Nucleo.TIdle -> true | _ -> false) in
+      (* `utb`: the UI thread sits in the blocking lock; the `run` step that frees the lock lets it through to its next
+         yield point at once (the model takes the tick step together with that run step), `utw` reports where it arrived *)
+      let ui_blocked = ref false and arrived : string option ref = ref None in
+      let show_tpc () =
+        (match !s.Nucleo.tpc with
+         | Nucleo.TIdle -> (match !s.Nucleo.last_tick with Some (c, r) -> Printf.sprintf "T%d%d" (Bool.to_int c) (Bool.to_int r) | None -> "T??")
+         | Nucleo.TBegun _ -> "Ybegin"
+         | Nucleo.TBeforeLock _ -> "Ybefore_lock"
+         | Nucleo.TBeforeTry _ -> "Ybefore_try"
+         | Nucleo.TTryFailed _ -> "Ytry_failed"
+         | Nucleo.TAfterRearm _ -> "Yafter_rearm"
+         | Nucleo.TBeforeSpawn _ -> "Ybefore_spawn") in
       List.iter (fun evs ->
         (* like the harness: once a step blocked where the schedule did not expect it, the rest is not replayed *)
         if (match !obs with ("BLOCKED" | "ABORTED") :: _ -> true | _ -> false) then push "ABORTED" else
@@ -74,26 +120,33 @@ let run_file file tablefile =
              end else if !stage = 1 then begin
                ev (Nucleo.EPublish (n sid, n !idx)); incr inj_notifies; stage := 2; push (Printf.sprintf "R%d" !idx)
              end else push (Printf.sprintf "R%d" !idx))
-        | ["inj"; h] -> ev (Nucleo.ENewInjector (n (int_of_string h))); push "-"
+        | ["inj"; h] -> if !pending = None then ev (Nucleo.ENewInjector (n (int_of_string h))); push "-"
         | ["clone"; h; h2] -> ev (Nucleo.ECloneInjector (n (int_of_string h), n (int_of_string h2))); push "-"
         | ["dropinj"; h] -> ev (Nucleo.EDropInjector (n (int_of_string h))); push "-"
-        | ["edit"; p; a] -> ev (Nucleo.EEdit (n (int_of_string p), a = "1", false)); push "-"
-        | ["restart"; c] -> ev (Nucleo.ERestart (c = "1")); push "-"
-        | ["tick"; z] -> if idle () then begin ev (Nucleo.ETickBegin (z = "0")); push "Ybegin" end else push "BUSY"
-        | ["ut"] ->
-          if idle () then push "-"
+        | ["edit"; p; a] ->
+          let p = int_of_string p in
+          if idle () && p >= 0 && p < npatterns then begin
+            ev (Nucleo.EEdit (n p, a = "1", lastneg_ !cur_pid p)); cur_pid := p
+          end;
+          push "-"
+        | ["restart"; c] -> if !pending = None then ev (Nucleo.ERestart (c = "1")); push "-"
+        | "tick" :: z :: rest when rest = [] || rest = ["as"] ->
+          if idle () then begin park_as := (rest = ["as"]); ev (Nucleo.ETickBegin (z = "0")); push "Ybegin" end else push "BUSY"
+        | ["ut"] | ["utb"] when !pending <> None || idle () || Nucleo.enabled_tick !s || String.trim evs = "ut" ->
+          if !pending <> None then begin (match !pending with Some o -> push o | None -> ()); pending := None end
+          else if idle () then push "-"
           else if not (Nucleo.enabled_tick !s) then push "BLOCKED"
           else begin
+            let at_spawn = !park_as && (match !s.Nucleo.tpc with Nucleo.TBeforeSpawn _ -> true | _ -> false) in
             ev Nucleo.ETick;
-            push (match !s.Nucleo.tpc with
-                | Nucleo.TIdle -> (match !s.Nucleo.last_tick with Some (c, r) -> Printf.sprintf "T%d%d" (Bool.to_int c) (Bool.to_int r) | None -> "T??")
-                | Nucleo.TBegun _ -> "Ybegin"
-                | Nucleo.TBeforeLock _ -> "Ybefore_lock"
-                | Nucleo.TBeforeTry _ -> "Ybefore_try"
-                | Nucleo.TTryFailed _ -> "Ytry_failed"
-                | Nucleo.TAfterRearm _ -> "Yafter_rearm"
-                | Nucleo.TBeforeSpawn _ -> "Ybefore_spawn")
+            (fun o -> if at_spawn then begin pending := Some o; push "Yafter_spawn" end else push o) (show_tpc ())
           end
+        (* utb: the UI thread is stepped into the blocking lock acquisition while the model's tick step is not enabled *)
+        | ["utb"] -> ui_blocked := true; push "B"
+        | ["utw"] ->
+          (match !arrived with
+           | Some o -> arrived := None; push o
+           | None -> push (if !ui_blocked then "B" else if idle () then "-" else show_tpc ()))
         | ["run"] ->
           let steppable = (match !s.Nucleo.post with Nucleo.PNone -> (match !s.Nucleo.lock with Nucleo.HeldRun _ -> true | _ -> false) | _ -> true) in
           if not steppable then push "NORUN" else begin
@@ -102,6 +155,9 @@ let run_file file tablefile =
             let cnt = i (Nucleo.count_of !s sid) in
             let seen = List.filter (fun k -> Nucleo.published !s sid (n k)) (List.init cnt (fun k -> k)) in
             ev (Nucleo.ERun (List.map n seen, n cnt));
+            if !ui_blocked && Nucleo.enabled_tick !s then begin
+              ui_blocked := false; ev Nucleo.ETick; arrived := Some (show_tpc ())
+            end;
             let lk = (match !s.Nucleo.lock with Nucleo.Free -> "" | _ -> "!locked") in
             push (if was_done then "Yidle" else
                     match !s.Nucleo.post with
@@ -120,9 +176,14 @@ let run_file file tablefile =
             let sn = !s.Nucleo.snap in
             let ms = List.map (fun m -> Printf.sprintf "%d:%d" (i m.Nucleo.m_score) (i m.Nucleo.m_idx)) sn.Nucleo.sn_matches in
             let ds = List.map (fun m -> match Hashtbl.find_opt items (i sn.Nucleo.sn_sid, i m.Nucleo.m_idx) with Some g -> string_of_int g | None -> "UNINIT") sn.Nucleo.sn_matches in
-            push (Printf.sprintf "O p=%d c=%d m=%s d=%s inj=%d n=%d u=0" (i sn.Nucleo.sn_pat) (i sn.Nucleo.sn_count)
+            (* Snapshot::get_item(k) reads the snapshot's stream: a published item -> its data, else None *)
+            let gi = List.init get_items (fun k ->
+                if Nucleo.published !s sn.Nucleo.sn_sid (n k) then
+                  (match Hashtbl.find_opt items (i sn.Nucleo.sn_sid, k) with Some g -> string_of_int g | None -> "UNINIT")
+                else "-") in
+            push (Printf.sprintf "O p=%d c=%d m=%s d=%s inj=%d n=%d u=0 g=%s" (i sn.Nucleo.sn_pat) (i sn.Nucleo.sn_count)
                     (if ms = [] then "-" else String.concat "," ms) (if ds = [] then "-" else String.concat "," ds)
-                    (i (Nucleo.active_injectors !s)) (i !s.Nucleo.notifies + !inj_notifies))
+                    (i (Nucleo.active_injectors !s)) (i !s.Nucleo.notifies + !inj_notifies) (String.concat "," gi))
           end
         | _ -> push "?") (String.split_on_char ';' line);
       print_endline (String.concat ";" (List.rev !obs))
@@ -131,20 +192,7 @@ let run_file file tablefile =
 (* ---- model-guided history generation: `driver nucleo-gen SEED COUNT` ------------------------------ *)
 (* random walks over the ENABLED events of the model (so that the real threads never block where the
    scheduler cannot see them); the pattern pool / text pool are those of harness/hn/src/nucleo_cmd.rs *)
-(* the pattern pool of the harness: (column 0 text, column 1 text); ids 0..6 = the earlier one-column pool *)
-let patterns = [| ("", ""); ("a", ""); ("ab", ""); ("abc", ""); ("b", ""); ("x", ""); ("ab c", "");
-                  ("", "p"); ("a", "p"); ("ab", "q"); ("a", "pq"); ("b", "p"); ("ab", "p"); ("a", "q") |]
-let npatterns = Array.length patterns
-let is_prefix a b = String.length a <= String.length b && String.sub b 0 (String.length a) = a
-(* truthful append flag of `edit nw 1` after pool entry `old`: EVERY column whose text changes is extended (the old
-   text is a prefix of the new one); the harness reparses exactly the changed columns, so the combined status (max
-   over the columns) is Update iff this holds - the flag of the model's single EEdit.  Re-typing the same entry
-   reparses column 0 with the same text: only the empty entry counts as an extension of itself (as before). *)
-let extends_ old nw =
-  if old = nw then old = 0 else
-  let (o0, o1) = patterns.(old) and (n0, n1) = patterns.(nw) in
-  (o0 = n0 || is_prefix o0 n0) && (o1 = n1 || is_prefix o1 n1)
-let nstyles = 12
+let nstyles = 15
 let gen ?tablefile seed count =
   Random.init seed;
   (* with the score table of the harness (pattern pool x text pool) the generator's model state is exactly the one
@@ -174,12 +222,17 @@ let gen ?tablefile seed count =
     let idle () = (match !s.Nucleo.tpc with Nucleo.TIdle -> true | _ -> false) in
     let held_run () = (match !s.Nucleo.post with Nucleo.PNone -> (match !s.Nucleo.lock with Nucleo.HeldRun _ -> true | _ -> false) | _ -> true) in
     let do_ut () = if (not (idle ())) && Nucleo.enabled_tick !s then (ev Nucleo.ETick; emit "ut"; true) else false in
+    (* the UI thread was stepped into the blocking lock acquisition (`utb`); the run step that frees the lock lets it
+       through (the model takes its tick step together with that run step), `utw` then reports where it arrived *)
+    let ui_blocked = ref false in
     let do_run () =
       if held_run () then begin
         let sid = !s.Nucleo.wk.Nucleo.w_sid in
         let cnt = i (Nucleo.count_of !s sid) in
         let seen = List.filter (fun k -> Nucleo.published !s sid (n k)) (List.init cnt (fun k -> k)) in
-        ev (Nucleo.ERun (List.map n seen, n cnt)); emit "run"; true end else false in
+        ev (Nucleo.ERun (List.map n seen, n cnt)); emit "run";
+        if !ui_blocked && Nucleo.enabled_tick !s then begin ui_blocked := false; ev Nucleo.ETick; emit "utw" end;
+        true end else false in
     let step_thread th =
       if th.is_ext then begin
         if !(th.stage) = 0 then begin
@@ -233,7 +286,7 @@ let gen ?tablefile seed count =
     let do_obs () = if idle () then (emit "obs"; true) else false in
     let cur_pat = ref 0 in
     let all_pats = List.init npatterns (fun q -> q) in
-    let edit_to p app = ev (Nucleo.EEdit (n p, app, false)); emit (Printf.sprintf "edit %d %d" p (Bool.to_int app)); cur_pat := p in
+    let edit_to p app = ev (Nucleo.EEdit (n p, app, lastneg_ !cur_pat p)); emit (Printf.sprintf "edit %d %d" p (Bool.to_int app)); cur_pat := p in
     let exts_of p = List.filter (fun q -> q <> p && extends_ p q) all_pats in
     let pick l = List.nth l (Random.int (List.length l)) in
     let do_edit () =
@@ -280,7 +333,7 @@ let gen ?tablefile seed count =
       else List.iter (fun th -> for _ = 1 to 1 + Random.int 4 do if unfinished th then step_thread th done) ths;
       (* a pattern with many matches in the pool *)
       if Random.int 5 > 0 then begin
-        let rich = [| 1; 1; 2; 4; 7; 8; 13; 9 |] in
+        let rich = [| 1; 1; 2; 4; 7; 8; 13; 9; 14; 15; 17 |] in
         let p = rich.(Random.int (Array.length rich)) in
         edit_to p (Random.bool ())
       end
@@ -326,7 +379,10 @@ let gen ?tablefile seed count =
         if Random.bool () then begin tick_begin false; settle () end;
         ignore (do_obs ());
         if idle () then begin
+          (* an append after a NEGATED last atom is a Rescore anyway: mostly start from a text whose last atom is positive *)
+          let positive q = let (q0, q1) = patterns.(q) in not (String.contains q0 '!' || String.contains q1 '!') in
           let firsts = List.filter (fun q -> q <> !cur_pat && exts_of q <> []) all_pats in
+          let firsts = if Random.int 8 > 0 then List.filter positive firsts else firsts in
           let p1 = pick firsts in
           edit_to p1 false;
           edit_to (pick (exts_of p1)) true;
@@ -458,6 +514,126 @@ let gen ?tablefile seed count =
           if two_step <> [] && (mixed = [] || Random.bool ()) then begin
             let (q, r) = pick two_step in edit_to q false; edit_to r true
           end else if mixed <> [] then edit_to (pick mixed) false
+        end
+      end
+    end;
+    (* style 12: the run completes between spawn and the rest of tick - the history ends with: the worker settled
+       (state Fresh), new published items (usually without an edit, so that the tick takes the non-cancelling path that
+       arms the notification flag), a tick whose UI thread ALSO parks at tick.after_spawn (`tick Z as`), the spawned run
+       stepped all the way to the end of its closure while the UI thread sits there, then the rest of the tick *)
+    if style = 12 then begin
+      settle ();
+      if idle () && not (held_run ()) then begin
+        tick_begin false; settle ();
+        if Random.int 4 = 0 then ignore (do_edit ());
+        feed ();
+        if idle () && not (held_run ()) then begin
+          let z = Random.bool () in
+          ev (Nucleo.ETickBegin z); emit (if z then "tick 0 as" else "tick 1 as");
+          let f = ref 40 in
+          while !f > 0 && not (idle ()) do
+            decr f;
+            let at_spawn = (match !s.Nucleo.tpc with Nucleo.TBeforeSpawn _ -> true | _ -> false) in
+            if do_ut () then begin
+              if at_spawn then begin
+                (* the UI thread is parked at tick.after_spawn (the model has already taken the step) *)
+                let f2 = ref (if Random.int 5 > 0 then 50 else Random.int 5) in
+                while !f2 > 0 && held_run () do decr f2; ignore (do_run ()) done;
+                emit "ut"
+              end
+            end else ignore (do_run ())
+          done;
+          ignore (do_obs ())
+        end
+      end
+    end;
+    (* style 13: tick blocks on the worker lock - the history ends with: a zero-timeout tick leaves a run parked holding
+       the worker lock; a restart (new injector, new items; sometimes a late push through an old injector) or an edit;
+       a tick (mostly timeout 0) that takes the cancelling branch and is stepped INTO the blocking lock_arc() while the
+       cancelled run still holds the lock (`utb`: the UI thread must NOT come out); the run is stepped until it releases
+       the lock, at which point the UI thread must arrive at tick.before_spawn (`utw`); the tick completes; observations *)
+    if style = 13 then begin
+      settle ();
+      if idle () && not (held_run ()) then begin
+        if Random.int 3 > 0 then begin tick_begin false; settle () end;
+        if Random.int 3 = 0 then begin let p0 = Random.int npatterns in edit_to p0 (extends_ !cur_pat p0 && Random.bool ()) end;
+        feed ();
+        if idle () && not (held_run ()) then begin
+          tick_begin true;
+          finish_tick ();
+          if idle () && (match !s.Nucleo.post, !s.Nucleo.lock with Nucleo.PNone, Nucleo.HeldRun _ -> true | _ -> false) then begin
+            if run_at_start () && Random.int 3 = 0 then ignore (do_run ());
+            if Random.int 4 = 0 then ignore (do_obs ());
+            let old_inj = !s.Nucleo.injectors in
+            if Random.int 4 > 0 then begin
+              ignore (do_restart ());
+              if Random.int 3 = 0 then ignore (do_obs ());
+              (* an injector and items for the new stream *)
+              feed ();
+              (* a late item through an injector of the old stream *)
+              (match old_inj with
+               | (h, sid) :: _ when Random.bool () && List.exists (fun (h', _) -> i h' = i h) !s.Nucleo.injectors ->
+                 let th = { tid = !next_t; sid = i sid; g = !next_g; n = 1; step = 1; chunk = 1; is_ext = false; stage = ref 0; idx = ref 0; pub = ref 0 } in
+                 threads := th :: !threads;
+                 emit (Printf.sprintf "push %d %d %d" th.tid (i h) th.g);
+                 incr next_t; next_g := !next_g + 1 + Random.int 3;
+                 if Random.int 4 > 0 then finish_thread th
+               | _ -> ())
+            end else begin
+              let p1 = Random.int npatterns in
+              edit_to p1 (extends_ !cur_pat p1 && Random.bool ())
+            end;
+            if idle () then begin
+              tick_begin (Random.int 4 > 0);
+              ignore (do_ut ());
+              (match !s.Nucleo.tpc with
+               | Nucleo.TBeforeLock _ when not (Nucleo.enabled_tick !s) ->
+                 emit "utb"; ui_blocked := true;
+                 let f = ref 20 in
+                 while !f > 0 && !ui_blocked do decr f; ignore (do_run ()) done;
+                 (* the rest of the run's closure, interleaved with the rest of the tick *)
+                 for _ = 1 to Random.int 4 do ignore (do_run ()) done
+               | _ -> ());
+              finish_tick ();
+              ignore (do_obs ())
+            end
+          end
+        end
+      end
+    end;
+    (* style 14: rescore run cancelled before it starts, then an append edit - the history ends with: the worker settles
+       on P0 (few matches), a NON-append edit to an unrelated P1 and a zero-timeout tick leave a Rescore run parked at
+       run.start; an extension P2 of P1 is typed with append = true; the next tick sets the cancel flag before the
+       Rescore run has done anything; the cancelled run must still have reset the matches (all items), because the
+       Update run that follows only rescans the worker's current matches *)
+    if style = 14 then begin
+      settle ();
+      if idle () && not (held_run ()) then begin
+        if Random.int 3 > 0 then feed ();
+        let narrow = [| 5; 5; 4; 11; 3; 6; 15; 16 |] in
+        let p0 = if Random.int 4 > 0 then narrow.(Random.int (Array.length narrow)) else 1 + Random.int (npatterns - 1) in
+        if p0 <> !cur_pat then edit_to p0 (extends_ !cur_pat p0 && Random.bool ());
+        tick_begin false; settle ();
+        if Random.bool () then begin tick_begin false; settle () end;
+        if Random.int 3 = 0 then ignore (do_obs ());
+        if Random.int 3 = 0 then feed ();
+        if idle () && not (held_run ()) then begin
+          let firsts = List.filter (fun q -> q <> !cur_pat && q <> 0 && exts_of q <> []) all_pats in
+          let p1 = pick firsts in
+          edit_to p1 false;
+          tick_begin true;
+          finish_tick ();
+          if idle () && run_at_start () then begin
+            edit_to (pick (exts_of p1)) true;
+            tick_begin (Random.int 3 = 0);
+            ignore (do_ut ());
+            (match !s.Nucleo.tpc with
+             | Nucleo.TBeforeLock _ when not (Nucleo.enabled_tick !s) && Random.bool () ->
+               emit "utb"; ui_blocked := true;
+               let f = ref 20 in
+               while !f > 0 && !ui_blocked do decr f; ignore (do_run ()) done
+             | _ -> ())
+          end
         end
       end
     end;
